@@ -961,6 +961,22 @@ def generate(repo):
                        "    std::mem::forget(q); std::mem::forget(pk); std::mem::forget(p);\n}\n"
                        % (tag, tag, tag, frame_w, wr, frame_w, frame_w, frame_w, T, low))
             out[-1] = out[-1].replace("@PIN_REF@", pin_ref)
+            if variant in ("Mso", "Res", "Hcp", "Rip", "Ver") and tc == "t3":
+                # typed -> bytes half alone, for kinds whose READER side does not close (MSO: format! on the data
+                # path; RES/HCP/RIP: size; VER: float parsing)
+                out.append(hdr + "fn c02_%s_w() {\n    let p = any_%s();\n"
+                           "    let mut o = Img::new();\n    ref_%s(&p, &mut o);\n"
+                           "    assert!(o.n == %d, \"C02:reference frame size (harness self-check)\");\n%s"
+                           "    let wrote = r.is_ok();\n    std::mem::forget(r);\n"
+                           "    assert!(wrote, \"C02:representable packet refused by the encoder\");\n"
+                           "    assert!(n + 1 == o.n, \"C02:frame length differs from the specification\");\n"
+                           "    let i: usize = kani::any(); kani::assume(i >= 1 && i < o.n && i <= n);\n"
+                           "    assert!(out[i - 1] == o.b[i], \"C02:encoded byte differs from the specification layout\");\n"
+                           "    kani::cover!(true, \"typed -> bytes compared\");\n"
+                           "    std::mem::forget(pk); std::mem::forget(p);\n}\n" % (tag, tag, tag, frame_w, wr))
+                index.append(dict(name="c02_%s_w" % tag, prop="C02", tier="thorough", unwind=unwind, cost=60 + 4 * frame_w,
+                                  bounds="%s: typed -> bytes direction only (the reader side of this kind does not close); every field symbolic, text length min(3,width)" % variant,
+                                  functions=["<insim::Packet as BinWrite>::write_options", "<%s as BinWrite>::write_options" % T]))
             # ---- C03
             cntpos = None
             off = 0
@@ -1013,6 +1029,24 @@ def generate(repo):
                               fallback_inputs=[[[0]] * 10, [[0], [1], [0], [0], [0], [0], [88], [70], [71], [0]], [[255]] * 10],
                               bounds="IS_MAL body with NumM = 1 and every other byte symbolic (10 bytes)",
                               functions=["<insim::insim::Mal as BinRead>::read_options", "indexmap::IndexSet::insert"]))
+        if variant == "Mso":
+            # IS_MSO body with a CONCRETE TextStart per harness (the name is a counted read: a symbolic count never
+            # closes): 0, inside the message, exactly the message length, beyond the frame
+            for ts in (0, 2, 8, 9, 200):
+                out.append("#[kani::proof]\n#[kani::unwind(20)]\n"
+                           "#[kani::stub(alloc::fmt::format, stub_format)]\n"
+                           "#[kani::stub(insim_core::string::codepages::to_lossy_string, stub_to_lossy_string)]\n"
+                           "fn c04_mso_ts%d_body() {\n"
+                           "    let mut img: [u8; 14] = kani::any();\n    img[5] = %d;\n"
+                           "    let mut c = Cursor::new(&img[..]);\n"
+                           "    let r = <insim::insim::Mso>::read_le(&mut c);\n"
+                           "    kani::cover!(r.is_ok(), \"accepted\");\n    kani::cover!(r.is_err(), \"rejected\");\n"
+                           "    assert!(c.position() as usize <= 14, \"C04:reader went beyond the frame\");\n"
+                           "    std::mem::forget(r);\n}\n" % (ts, ts))
+                index.append(dict(name="c04_mso_ts%d_body" % ts, prop="C04", tier="quick" if ts in (2, 200) else "thorough", unwind=20, cost=60,
+                                  fallback_inputs=[[[0]] * 14, [[255]] * 14, [[0x41]] * 14],
+                                  bounds="IS_MSO: arbitrary 14-byte body (8 message bytes) with TextStart = %d" % ts,
+                                  functions=["<insim::insim::Mso as BinRead>::read_options"]))
         # ---- Codec::encode wiring for this kind: Default payload (concrete), both modes (symbolic)
         cw = max([d[2] for d in descs if d[0] == "str"] + [d[2] for d in descs if d[0] == "arr"] + [45]) + 3
         out.append("#[kani::proof]\n#[kani::unwind(%d)]\n"
